@@ -50,7 +50,7 @@ def gen(rng, i, tier):
     codec = det
     for _ in range(rng.choice([0, 1, 2, 4])):
         ops.append(rng.choice([["attr", "title", F.rand_str(r, codec)], ["set", "CREDIT", F.rand_str(r, codec)], ["del", "ARTIST"], ["set", "SUBTITLE", None],
-                               ["dupchart"], ["delchart"], ["attr", "artist", ""],
+                               ["dupchart"], ["delchart"], ["attr", "artist", ""], ["extra", rng.choice(["assign", "extend"]), rng.choice([["x"], ["a", "b"], [""]])],
                                ["attr", "attacks", rng.choice(["  TIME=1.5:LEN=2 : MODS=drunk\n:  TIME=3:END=4:MODS=tipsy", "TIME=1:LEN=2:MODS=a", ""])],
                                ["attr", "displaybpm", rng.choice(["120 : 240", " 150 ", "90:180", "*"])], ["set", "GENRE", "  padded value \n"],
                                ["notes", rng.choice(["1000\n0:00", "10;0\n0000", "00\\00\n0001", "0000 // beat 1\n0000", "{tornado:1.5}0\n0000"])]]))
@@ -127,12 +127,20 @@ def enc_simfile(o):
     return [0, G.enc_sm(o)] if o[0] == "SM" else [1, G.enc_ssc(o)]
 
 
+STALE = b"#TITLE:left by an earlier run;\n"
+
+
 def build_request(c, root_input, out, bak, body, bad_chars, fault):
     data = bytes.fromhex(c["data"])
     encs = c["try"] or F.DEFAULT_ENCODINGS
     row = [F.text_mode_decode(data, e) for e in encs]
-    return [50, True, root_input, [] if out is None else [out], [] if bak is None else [bak], len(encs), [[root_input, [0, 0]]],
-            [[0, [[] if t is None else [t] for t in row]]], body, bad_chars, [] if fault is None else [fault]]
+    files = [[root_input, [0, 0]]]
+    table = [[0, [[] if t is None else [t] for t in row]]]
+    if c.get("stale_bak") and bak is not None and bak != root_input and bak != out:
+        files.append([bak, [0, 1]])               # a file already sitting at the backup path (symbolic content 1)
+        table.append([1, [[] for _ in encs]])
+    return [50, True, root_input, [] if out is None else [out], [] if bak is None else [bak], len(encs), files,
+            table, body, bad_chars, [] if fault is None else [fault]]
 
 
 _impl_cache = {}
@@ -180,7 +188,7 @@ EXN = {1: "UnicodeDecodeError", 2: "load", 3: "FileNotFoundError", 4: "ValueErro
 
 def decode_content(x, data, encs):
     if x[0] == 0:
-        return data.hex()
+        return STALE.hex() if (len(x) > 1 and x[1] == 1) else data.hex()
     if x[0] == 2:
         return ""
     return S(x[2]).encode(encs[x[1]]).hex()
